@@ -177,6 +177,12 @@ fn fold(h: u64, rip: u64) -> u64 {
 /// from the parsed request's fields, calling validate_signature directly.
 static BUILDER_MODE: std::sync::atomic::AtomicBool = std::sync::atomic::AtomicBool::new(false);
 
+/// Tracer modes "inflight" (1) and "inflight-wrong" (2): while the refusal is traced, another validation of the very same
+/// request — carrying the correct signature (1) or another wrong one (2) — is suspended in its key provider's future.
+static INFLIGHT_MODE: std::sync::atomic::AtomicU8 = std::sync::atomic::AtomicU8::new(0);
+/// the request that is parked in that mode (set before any fork)
+static mut PARKED: Option<WireReq> = None;
+
 /// What a traced child does: everything is prepared, `start()` is called, the validation runs, `stop()` is called.
 /// Returns the exit code (0 = refused with SignatureDoesNotMatch as expected).
 unsafe fn child_body(wire: &WireReq, cfg: &Cfg, prov: &ProvSpec, start: unsafe fn(), stop: unsafe fn()) -> i32 {
@@ -226,6 +232,44 @@ unsafe fn child_body(wire: &WireReq, cfg: &Cfg, prov: &ProvSpec, start: unsafe f
         Err(_) => return 3,
     };
     let mut provider = prov.to_provider();
+    let inflight = INFLIGHT_MODE.load(std::sync::atomic::Ordering::Relaxed);
+    if inflight != 0 {
+        use std::future::Future;
+        #[allow(static_mut_refs)]
+        let parked_wire = match PARKED.as_ref() {
+            Some(w) => w,
+            None => return 7,
+        };
+        let parked_req = match parked_wire.to_http() {
+            Ok(r) => r,
+            Err(_) => return 7,
+        };
+        // its provider never answers: the validation stays suspended inside the key lookup
+        let mut parked_provider = prov.to_provider().with_delays(0, u32::MAX);
+        let reqs = sut::build_vec_reqs(&cfg.reqs, sut::ReqBuild::VecNew);
+        let now = sut::to_chrono(cfg.now());
+        let mut parked = Box::pin(scratchstack_aws_signature::sigv4_validate_request(parked_req, &cfg.region, &cfg.service, &mut parked_provider, now, &reqs, cfg.options()));
+        let w = crate::env::noop_waker();
+        let mut cx = std::task::Context::from_waker(&w);
+        for _ in 0..3 {
+            if parked.as_mut().poll(&mut cx).is_ready() {
+                return 8;
+            }
+        }
+        start();
+        let r = sut::validate_http(req, cfg, &mut provider, 16);
+        stop();
+        // still suspended afterwards, then abandoned
+        if parked.as_mut().poll(&mut cx).is_ready() {
+            return 8;
+        }
+        drop(parked);
+        return match &r {
+            sut::SutResult::Err(e) if e.kind == Some(refmodel::Kind::SignatureDoesNotMatch) => 0,
+            sut::SutResult::Ok(_) => 10,
+            _ => 11,
+        };
+    }
     start();
     let r = sut::validate_http(req, cfg, &mut provider, 16);
     stop();
@@ -393,6 +437,12 @@ pub fn tracer_main(args: &[String]) -> i32 {
     let debug_logger = args.get(4).map(|s| s.as_str()) == Some("debug");
     let builder_mode = args.get(4).map(|s| s.as_str()) == Some("builder");
     BUILDER_MODE.store(builder_mode, std::sync::atomic::Ordering::Relaxed);
+    let inflight_mode: u8 = match args.get(4).map(|s| s.as_str()) {
+        Some("inflight") => 1,
+        Some("inflight-wrong") => 2,
+        _ => 0,
+    };
+    INFLIGHT_MODE.store(inflight_mode, std::sync::atomic::Ordering::Relaxed);
     if debug_logger {
         crate::env::set_log_mode_level(crate::env::LOG_FORMAT, log::LevelFilter::Debug);
         crate::env::FORMAT_LOGS.with(|f| f.set(true));
@@ -424,6 +474,15 @@ pub fn tracer_main(args: &[String]) -> i32 {
         }
     }
     // everything needed later is allocated now: nothing may change this process's heap between forks
+    #[allow(static_mut_refs)]
+    unsafe {
+        PARKED = match inflight_mode {
+            1 => Some(wire.clone()),
+            // a wrong guess that is right up to its last character
+            2 => Some(put_signature(&wire, &sig, &variant(&sig, 63))),
+            _ => None,
+        };
+    }
     let mut wires: Vec<(usize, WireReq)> = Vec::with_capacity(variants.len() + 3);
     wires.push((64, put_signature(&wire, &sig, &variant(&sig, 64)))); // reference: all wrong
     wires.push((64, put_signature(&wire, &sig, &variant(&sig, 64)))); // reference again: determinism check
@@ -522,7 +581,7 @@ pub fn tracer_main(args: &[String]) -> i32 {
     for (n, r) in results.iter().enumerate() {
         println!(
             "{}",
-            json!({"request": name, "secret": si, "stepping": if use_ptrace { "ptrace" } else { "trap flag" }, "logger": if debug_logger { "debug" } else { "off" }, "entry": if builder_mode { "validate_signature on a builder-made authenticator" } else { "sigv4_validate_request" }, "variant": r.variant, "role": if n == 0 { "reference" } else if n == 1 { "reference-repeat" } else if n == 2 { "reference-upper" } else { "variant" },
+            json!({"request": name, "secret": si, "stepping": if use_ptrace { "ptrace" } else { "trap flag" }, "logger": if debug_logger { "debug" } else { "off" }, "entry": if builder_mode { "validate_signature on a builder-made authenticator" } else if inflight_mode == 1 { "sigv4_validate_request while the correctly signed copy of the request is suspended in its key lookup" } else if inflight_mode == 2 { "sigv4_validate_request while a wrongly signed copy of the request is suspended in its key lookup" } else { "sigv4_validate_request" }, "variant": r.variant, "role": if n == 0 { "reference" } else if n == 1 { "reference-repeat" } else if n == 2 { "reference-upper" } else { "variant" },
                    "steps": r.steps, "hash": format!("{:016x}", r.hash), "first_divergence": r.first_divergence,
                    "rip_reference_offset": format!("{:#x}", r.rip_ref.wrapping_sub(base)), "rip_observed_offset": format!("{:#x}", r.rip_got.wrapping_sub(base)),
                    "refused": r.refused, "child_code": codes[n], "signature": variant(&sig, r.variant)})
@@ -609,6 +668,19 @@ pub fn run(ctx: &Ctx) -> Report {
             }
         }
     }
+    // the refusal while another validation of the same request (the genuine one / a wrong guess) is suspended in its key
+    // provider's future: positions 0, 13, .. in quick, all in thorough
+    {
+        let vs: Vec<usize> = if thorough { (0..128).collect() } else { vec![0, 13, 26, 39, 52, 63] };
+        for mode in [3u8, 4] {
+            for (si, ri) in if thorough { vec![(0usize, 0usize), (1, 2)] } else { vec![(0usize, 0usize)] } {
+                for c in vs.chunks(if thorough { 16 } else { 9 }) {
+                    jobs.push((si, ri, c.to_vec(), mode));
+                }
+            }
+        }
+    }
+    let workers = if thorough { workers } else { jobs.len().max(workers) };
     let outputs: Vec<(usize, usize, Vec<serde_json::Value>)> = {
         use rayon::prelude::*;
         let pool = rayon::ThreadPoolBuilder::new().num_threads(workers).build().unwrap();
@@ -621,7 +693,7 @@ pub fn run(ctx: &Ctx) -> Report {
                         .arg(si.to_string())
                         .arg(ri.to_string())
                         .arg(list)
-                        .arg(["off", "debug", "builder"][*dbg as usize])
+                        .arg(["off", "debug", "builder", "inflight", "inflight-wrong"][*dbg as usize])
                         .output();
                     match out {
                         Ok(o) if o.status.success() => {
@@ -693,7 +765,7 @@ pub fn run(ctx: &Ctx) -> Report {
     Report {
         stats: st,
         rule: format!(
-            "for each of {} (request, key) groups ({}): wrong signatures of the correct length — only position p wrong for every p in 0..63{} — substituted within the character's class (digit->digit, letter->letter), in lower case and (every 8th position in quick, all in thorough) with the letters in upper case, each family compared with its own all-wrong reference; the lower-case family is traced again with a logger installed at Debug level that formats every record; six further request shapes — three carry the presented signature twice (a repeated X-Amz-Signature parameter, a repeated Signature= field, a stray X-Amz-Signature query parameter next to header authentication), three vary the request (Host with a port; session token, twelve more signed headers and a repeated query parameter; folded form body behind an absolute-form target; positions 0, 13, 26, 39, 52, 63 in quick, all positions and both secrets in thorough); the refusal is also traced on an authenticator assembled by hand through the unstable builder with validate_signature called directly; each is validated in a forked child of a warmed-up tracer (the genuine request accepted once, then 14 wrong signatures refused for the same access key) of a single-threaded tracer (ship-profile build, logger off unless stated, byte-wise early-exit memcmp/bcmp linked in) and single-stepped (the child sets the processor's trap flag around the call and a SIGTRAP handler sees every instruction; a ptrace stepper is kept as a fallback, VH_C07_PTRACE=1) from just before to just after sigv4_validate_request; every trace must have the same length and the same RIP-sequence hash as the group's reference trace (all 64 characters wrong), which is itself traced twice to prove the apparatus deterministic. states = distinct (group, trace hash); transitions = machine instructions stepped",
+            "for each of {} (request, key) groups ({}): wrong signatures of the correct length — only position p wrong for every p in 0..63{} — substituted within the character's class (digit->digit, letter->letter), in lower case and (every 8th position in quick, all in thorough) with the letters in upper case, each family compared with its own all-wrong reference; the lower-case family is traced again with a logger installed at Debug level that formats every record; six further request shapes — three carry the presented signature twice (a repeated X-Amz-Signature parameter, a repeated Signature= field, a stray X-Amz-Signature query parameter next to header authentication), three vary the request (Host with a port; session token, twelve more signed headers and a repeated query parameter; folded form body behind an absolute-form target; positions 0, 13, 26, 39, 52, 63 in quick, all positions and both secrets in thorough); the refusal is also traced on an authenticator assembled by hand through the unstable builder with validate_signature called directly, and while another validation of the very same request — the correctly signed one, or another wrong guess — is suspended in its key provider's future (polled until parked before the trace starts, still parked after it); each is validated in a forked child of a warmed-up tracer (the genuine request accepted once, then 14 wrong signatures refused for the same access key) of a single-threaded tracer (ship-profile build, logger off unless stated, byte-wise early-exit memcmp/bcmp linked in) and single-stepped (the child sets the processor's trap flag around the call and a SIGTRAP handler sees every instruction; a ptrace stepper is kept as a fallback, VH_C07_PTRACE=1) from just before to just after sigv4_validate_request; every trace must have the same length and the same RIP-sequence hash as the group's reference trace (all 64 characters wrong), which is itself traced twice to prove the apparatus deterministic. states = distinct (group, trace hash); transitions = machine instructions stepped",
             groups.len(),
             if thorough { "GET vanilla, POST body, query carrier x 2 secrets" } else { "GET vanilla, first secret" },
             if thorough { ", and positions p..63 all wrong for every p" } else { "" }
